@@ -213,6 +213,18 @@ theorem service_worker_restarts (env : Env) (it : Item) (hk : it.kind = .svc) (h
   obtain ⟨n, it', h1, h2, h3, h4, h5, h6, h7⟩ := svc_restart_path env it hk hp hr hs
   exact ⟨n, it', h1, h2, h3, by simp [Item.inFn, h3, h4], h5, h6, h7⟩
 
+/-- Service workers are restarted (3): on its own and never told to stop, a service worker whose function
+    produces the outcomes `os` (and nil afterwards) runs it once per outcome up to and including the first
+    nil / context.Canceled — every panic, error or restart request in between is followed by another run —
+    and then ends. -/
+theorem service_worker_runs_until_finished (env : Env) (hs : env.stopFlag = false) (os : List Outcome) :
+    ∃ n it', itemIter env n { kind := .svc, outs := os } = some it' ∧ it'.done = true ∧ it'.runs = svcRuns os := by
+  obtain ⟨n, it', h1, h2, h3, h4⟩ :=
+    svc_loop_runs env hs os { kind := .svc, outs := os, pc := 1 } rfl rfl rfl
+  refine ⟨n + 1, it', ?_, by simp [Item.done, h2, h3], by simpa using h4⟩
+  rw [itemIter_succ env n _ { kind := .svc, outs := os, pc := 1 } { dw := 1 } (by simp [itemStep, svcStep])]
+  exact h1
+
 /-- A panic restarts: the premise of `service_worker_restarts` holds for every panic value. -/
 theorem panic_restarts_service_worker (v : PCls) : (Outcome.panic v).restarts = true := rfl
 
@@ -286,6 +298,8 @@ example :
       (fun s => (s.allDone, s.w, s.feed.length, s.items.map (·.runs)))
     = some (true, 0, 2, [3]) := by
   rfl
+
+example : svcRuns [.panic .rt, .err, .restart, .panic .nil, .ok, .panic .str] = 5 := by decide
 
 /-- A task that panics, is queued again and runs to the end; a stop with a panicking stop routine completes. -/
 example :
